@@ -2132,6 +2132,7 @@ theorem encodeIntoS_eq (san : Bool) (v : Val) (buf : Bytes) : encodeIntoS san v 
 
 theorem encode1_eq (v : Val) : encode1 v = encode2 v := by simp [encode1, encode2, encodeIntoS_eq]
 theorem encode4_eq (v : Val) : encode4 v = encode2 v := by simp [encode4, encode2, encodeIntoS_eq]
+theorem encode5_eq (v : Val) : encode5 v = encode2 v := by simp [encode5, encode2, encodeIntoS_eq]
 
 theorem encodeConnListS_eq (san : Bool) (a : List Val)
     (h : ∀ v ∈ a, ∀ buf, encodeConnS san false v buf = buf ++ encode2S san v) :
@@ -2184,6 +2185,14 @@ theorem encodeErr_eq (msg : Bytes) : encodeErr msg = encode2 (.error (errText ms
     simp
 
 /-! ### a value without CR / LF in its lines is what is on the wire -/
+
+theorem encodeErr5_eq (msg : Bytes) : encodeErr5 msg = encode2 (.error ([69, 82, 82, 32] ++ msg)) := by
+  have h4 : sanitize true [69, 82, 82, 32] = [69, 82, 82, 32] := by decide
+  have h5 : sanitize true ([69, 82, 82, 32] ++ msg) = [69, 82, 82, 32] ++ sanitize true msg := by
+    rw [sanitize_append, h4]
+  unfold encodeErr5 encode2 encode2S
+  rw [h5]
+  simp [crlf]
 
 theorem sanitize_plain (s : Bytes) (h : (!(s.contains 13) && !(s.contains 10)) = true) : sanitize true s = s := by
   unfold sanitize
